@@ -27,7 +27,7 @@ MANIFEST = dict(
          "GeckoShell.do_snapshot + GeckoCmd.do_logfile + GeckoSnapshot.parse_log_file, against real re.search per expression, "
          "and of pyReprBytes/litEval against CPython EXHAUSTIVELY on all 256 bytes and all 65 536 ordered byte pairs. "
          "Enumeration on the implementation (not a theorem): all 34 shipped snapshot files are parsed, loaded into the real "
-         "GeckoSimulator and served to a real async and a real threaded-class client; the client block equals the parsed bytes. Traffic logs in segmentations from 4 to 255 bytes and uneven ones.",
+         "GeckoSimulator and served to a real async and a real threaded-class client; the client block equals the parsed bytes. Traffic logs in segmentations from 4 to 255 bytes and uneven ones. Session 5: the identity a client learns through the real version / channel / config-file exchanges (firmware versions, platform, config and log table versions) equals the snapshot's, for every shipped record (8 of them have differing config and log versions).",
     note="Trusted: Lean kernel; CPython's bytes.__repr__, ast.literal_eval, re and int() are modelled and validated by "
          "correspondence, not verified; the model's character classes are ASCII (SafeName requires printable ASCII names); "
          "the serving of shipped snapshots is an exhaustive enumeration of a finite set on the implementation "
@@ -291,6 +291,54 @@ def serve_async(sim):
     return vloop.run_virtual(go, network=Net())
 
 
+def serve_identity(sim):
+    """what a client learns about WHICH spa it talks to, through the real request/reply handlers over a real GeckoAsyncUdpProtocol:
+    the firmware versions, the platform and the config / log table versions (the exchanges `_connect` makes before it asks for the
+    block, built the way it builds them)"""
+    from geckolib.driver import (GeckoPacketProtocolHandler, GeckoVersionProtocolHandler, GeckoConfigFileProtocolHandler,
+                                 GeckoGetChannelProtocolHandler)
+    from geckolib.driver.async_udp_protocol import GeckoAsyncUdpProtocol
+
+    class Net:
+        def __init__(self):
+            self.proto = None
+            self.unwrap = GeckoPacketProtocolHandler()
+
+        def attach(self, tr):
+            pass
+
+        def sendto(self, tr, data, addr):
+            for resp in sim.exchange(data):
+                if self.unwrap.can_handle(resp, SPA_ADDR):
+                    self.unwrap.handle(resp, SPA_ADDR)
+                    self.proto.datagram_received(self.unwrap.packet_content, self.unwrap.parms)
+
+    async def go(loop):
+        proto = GeckoAsyncUdpProtocol(None, SPA_ADDR)
+        loop.network.proto = proto
+        tr = vloop.FakeTransport(loop, proto)
+        proto.connection_made(tr)
+        out = {}
+        v = await proto.get(lambda: GeckoVersionProtocolHandler.request(proto.get_and_increment_sequence_counter(False), parms=SENDPARMS))
+        if v is not None:
+            out["en"] = (v.en_build, v.en_major, v.en_minor)
+            out["co"] = (v.co_build, v.co_major, v.co_minor)
+        c = await proto.get(lambda: GeckoGetChannelProtocolHandler.request(proto.get_and_increment_sequence_counter(False), parms=SENDPARMS))
+        out["channel_answered"] = c is not None
+        f = await proto.get(lambda: GeckoConfigFileProtocolHandler.request(proto.get_and_increment_sequence_counter(False), parms=SENDPARMS))
+        if f is not None:
+            out["platform"] = str(f.plateform_key)
+            out["config_version"] = f.config_version
+            out["log_version"] = f.log_version
+        return out
+    return vloop.run_virtual(go, network=Net())
+
+
+def identity_of(sn):
+    return {"en": tuple(sn.intouch_EN), "co": tuple(sn.intouch_CO), "channel_answered": True, "platform": str(sn.packtype),
+            "config_version": sn.config_version, "log_version": sn.log_version}
+
+
 class MockSock:
     def __init__(self):
         self.out = []
@@ -542,6 +590,12 @@ def run(ctx):
                     ok2, got2 = serve_sync(sim)
                     if not ok2 or got2 != sn.bytes:
                         ctx.violation(f"shipped:{tag}:serve-sync", inp, "threaded-class client block == parsed bytes", {"ok": ok2, "len": len(got2)})
+                        continue
+                    ident = serve_identity(sim)
+                    ctx.hist("served_identity", f"{sn.packtype} cfg {sn.config_version} log {sn.log_version}")
+                    if {k: str(v) for k, v in ident.items()} != {k: str(v) for k, v in identity_of(sn).items()}:
+                        ctx.violation(f"shipped:{tag}:serve-identity", inp, {"the client learns the snapshot's identity": {k: str(v) for k, v in identity_of(sn).items()}},
+                                      {k: str(v) for k, v in ident.items()})
                         continue
                     served += 1
                     nontrivial.add(("shipped", tag))
@@ -814,6 +868,10 @@ def replay(inp):
                 ok2, got2 = serve_sync(sim)
                 if not ok or not ok2 or got != sn.bytes or got2 != sn.bytes:
                     obs[f"serve#{i}"] = {"async_ok": ok, "sync_ok": ok2}
+                    bad = True
+                ident = serve_identity(sim)
+                if {k: str(v) for k, v in ident.items()} != {k: str(v) for k, v in identity_of(sn).items()}:
+                    obs[f"identity#{i}"] = {k: str(v) for k, v in ident.items()}
                     bad = True
         finally:
             sim.close()
